@@ -279,8 +279,8 @@ int main(void) {
 			free(sb);
 			if (prc == KSI_OK && strcmp(tok[4], "-")) { pb = hx_dec(tok[4], &pl); prc = KSI_PublicationsFile_parse(ctx, pb, pl, &pf); free(pb); if (prc != KSI_OK) prc |= 0x10000; }
 			if (prc == KSI_OK && strcmp(tok[3], "-")) { char *c2 = strchr(tok[3], ':'); size_t il; unsigned char *ib; KSI_Integer *t = NULL; KSI_DataHash *h = NULL; *c2++ = 0; ib = hx_dec(c2, &il);
-				KSI_PublicationData_new(ctx, &up); KSI_Integer_new(ctx, strtoull(tok[3], NULL, 10), &t); prc = KSI_DataHash_fromImprint(ctx, ib, il, &h); free(ib);
-				KSI_PublicationData_setTime(up, t); if (prc == KSI_OK) KSI_PublicationData_setImprint(up, h); else prc |= 0x20000; }
+				prc = KSI_PublicationData_new(ctx, &up); if (prc == KSI_OK) prc = KSI_Integer_new(ctx, strtoull(tok[3], NULL, 10), &t); if (prc == KSI_OK) prc = KSI_DataHash_fromImprint(ctx, ib, il, &h); free(ib);
+				if (prc == KSI_OK) { KSI_PublicationData_setTime(up, t); KSI_PublicationData_setImprint(up, h); } else { KSI_Integer_free(t); KSI_DataHash_free(h); prc |= 0x20000; } }
 			if (prc == KSI_OK && n > 6 && strcmp(tok[6], "-")) { size_t dl; unsigned char *db = hx_dec(tok[6], &dl); prc = KSI_DataHash_fromImprint(ctx, db, dl, &doc); free(db); }
 			if (prc != KSI_OK) printf("R verify parse=0x%x\n", prc);
 			else {
